@@ -448,6 +448,10 @@ type Endpoints struct {
 	// SharedInbox endpoints SHOULD also be publicly readable OrderedCollection objects containing objects addressed to the
 	// Public special collection. Reading from the sharedInbox endpoint MUST NOT present objects which are not addressed to the Public endpoint.
 	SharedInbox Item `jsonld:"sharedInbox,omitempty"`
+	// ProxyURL Endpoint URI so this actor's clients may access remote ActivityStreams objects which require authentication
+	// to access. To use this endpoint, the client posts an x-www-form-urlencoded id parameter with the value being
+	// the id of the requested ActivityStreams object.
+	ProxyURL Item `jsonld:"proxyUrl,omitempty"`
 }
 
 // UnmarshalJSON decodes an incoming JSON document into the receiver object.
@@ -463,6 +467,7 @@ func (e *Endpoints) UnmarshalJSON(data []byte) error {
 	e.ProvideClientKey = JSONGetItem(val, "provideClientKey")
 	e.SignClientKey = JSONGetItem(val, "signClientKey")
 	e.SharedInbox = JSONGetItem(val, "sharedInbox")
+	e.ProxyURL = JSONGetItem(val, "proxyUrl")
 	return nil
 }
 
@@ -489,6 +494,9 @@ func (e Endpoints) MarshalJSON() ([]byte, error) {
 	}
 	if e.UploadMedia != nil {
 		notEmpty = JSONWriteItemProp(&b, "uploadMedia", e.UploadMedia) || notEmpty
+	}
+	if e.ProxyURL != nil {
+		notEmpty = JSONWriteItemProp(&b, "proxyUrl", e.ProxyURL) || notEmpty
 	}
 	if notEmpty {
 		JSONWrite(&b, '}')
@@ -565,6 +573,7 @@ func (e Endpoints) GobEncode() ([]byte, error) {
 		"provideClientKey":           e.ProvideClientKey,
 		"signClientKey":              e.SignClientKey,
 		"sharedInbox":                e.SharedInbox,
+		"proxyUrl":                   e.ProxyURL,
 	} {
 		if it == nil {
 			continue
@@ -600,6 +609,7 @@ func (e *Endpoints) GobDecode(data []byte) error {
 		"provideClientKey":           &e.ProvideClientKey,
 		"signClientKey":              &e.SignClientKey,
 		"sharedInbox":                &e.SharedInbox,
+		"proxyUrl":                   &e.ProxyURL,
 	} {
 		if raw, ok := mm[name]; ok {
 			if *it, err = gobDecodeItem(raw); err != nil {
